@@ -79,7 +79,7 @@ func tokenize(sourceCode string, cursor *Position) ([]Token, error) {
 func read_atom(rdr *tokenReader) (MalType, error) {
 	tokenStruct := rdr.next()
 	if tokenStruct == nil {
-		return nil, lisperror.NewLispError(errors.New("read_atom underflow"), tokenStruct.GetPosition())
+		return nil, lisperror.NewLispError(errors.New("read_atom underflow"), nil)
 	}
 	token := &tokenStruct.Value
 	switch tokenStruct.Type {
@@ -133,12 +133,12 @@ func read_atom(rdr *tokenReader) (MalType, error) {
 func read_list(rdr *tokenReader, start string, end string, placeholderValues *HashMap, ns EnvType) (MalType, error) {
 	tokenStruct := rdr.next()
 	if tokenStruct == nil {
-		return nil, lisperror.NewLispError(errors.New("read_list underflow"), &tokenStruct)
+		return nil, lisperror.NewLispError(errors.New("read_list underflow"), nil)
 	}
 	cursor := tokenStruct.Cursor.Copy()
 	token := &tokenStruct.Value
 	if *token != start {
-		return nil, lisperror.NewLispError(errors.New("expected '"+start+"'"), &tokenStruct)
+		return nil, lisperror.NewLispError(errors.New("expected '"+start+"'"), tokenStruct)
 	}
 	lastKnown := tokenStruct
 
@@ -215,7 +215,7 @@ func read_set(rdr *tokenReader, placeholderValues *HashMap, ns EnvType) (MalType
 func read_placeholder(rdr *tokenReader, placeholderValues *HashMap, ns EnvType) (MalType, error) {
 	tokenStruct := rdr.next()
 	if tokenStruct == nil {
-		return nil, lisperror.NewLispError(errors.New("read_placeholder underflow"), &tokenStruct)
+		return nil, lisperror.NewLispError(errors.New("read_placeholder underflow"), nil)
 	}
 	return placeholderValues.Val[tokenStruct.Value], nil
 }
@@ -223,7 +223,7 @@ func read_placeholder(rdr *tokenReader, placeholderValues *HashMap, ns EnvType) 
 func read_form(rdr *tokenReader, placeholderValues *HashMap, ns EnvType) (MalType, error) {
 	tokenStruct := rdr.peek()
 	if tokenStruct == nil {
-		return nil, lisperror.NewLispError(errors.New("read_form underflow"), &tokenStruct)
+		return nil, lisperror.NewLispError(errors.New("read_form underflow"), nil)
 	}
 	cursor := tokenStruct.Cursor.Copy()
 	switch tokenStruct.Value {
